@@ -5,6 +5,14 @@ import "fmt"
 func registry() []PropSpec {
 	return []PropSpec{
 		{
+			ID: "C02",
+			Quick: []HarnessSpec{
+				{Pkg: pkgCC, Func: "H02a_q", Unwind: 8, Note: "populateExpectedResponse: stream type 0..6 (incl. unspecified/out of range), 0..3 request messages of one of 4 types or undecodable, response definition present or not, 0..3 response_data items, error present or not, unary response nothing/data/error, expected response preset or not"},
+			},
+			Stubs: []string{"anypb UnmarshalNew / New are contract stubs (table lookup); natively real Any values are used"},
+			Out:   []string{"agreement of the derived expectation with the reference peers (needs the whole RPC stack: same reason as C01)", "YAML/JSON parsing of suites"},
+		},
+		{
 			ID: "C03",
 			Quick: []HarnessSpec{
 				{Pkg: pkgCC, Func: "H03a_q", Unwind: 12, Note: "canonicalizeHeaderVals laws on strings <=3 bytes over {a, comma, space}"},
